@@ -40,6 +40,22 @@ Theorem C09_stream_append : forall w p prev, tidy w -> parts_ok p -> (ew_seeker 
 Proof. exact stream_one_spec. Qed.
 Print Assumptions C09_stream_append.
 
+(* a FRESH encoder on a destination that already holds bytes (cursor at their end): plain writers and everything that can
+   seek append exactly the sequences and leave the earlier bytes untouched, for every buffer size.  WriterAt-only
+   destinations are addressed by absolute offsets counted from where the encoder started and are excluded. *)
+Theorem C09_batch_appends_to_earlier_content : forall k size pre (ps : list (eparts * N)), appends_safely k = true ->
+  Forall (fun x => parts_ok (fst x)) ps ->
+  exists w', encode_chain (wst_new k size pre None) ps [] = (repeat false (length ps), w')
+    /\ final_bytes w' = pre ++ concat (map (fun x => sequence_bytes (fst x)) ps).
+Proof. exact batch_appends_to_earlier_content. Qed.
+Print Assumptions C09_batch_appends_to_earlier_content.
+
+Theorem C09_stream_appends_to_earlier_content : forall k size pre (ps : list eparts), can_seek k = true -> Forall parts_ok ps ->
+  exists w', stream_chain (wst_new k size pre None) ps 0 [] = (repeat false (length ps), w')
+    /\ final_bytes w' = pre ++ concat (map sequence_bytes ps).
+Proof. exact stream_appends_to_earlier_content. Qed.
+Print Assumptions C09_stream_appends_to_earlier_content.
+
 (* the hypothesis parts_ok is met by everything the encoder model produces, and the bytes are those of encode_fit *)
 Theorem C09_parts_ok : forall c f p, encode_parts c f = Ok p -> parts_ok p.
 Proof. exact encode_parts_ok. Qed.
